@@ -2,7 +2,7 @@
     list-encoded operands.  Evaluated inside Coq (vm_compute) and, for volume,
     through extraction (Extract.v). *)
 From Coq Require Import ZArith List.
-From FastorV Require Import Base.Scalar Base.Mem Model.Cfg Model.Matmul Model.TMatmul Model.Expr Model.ExprInt Model.Reduce Base.Shape Model.Views Model.RandomViews Model.Layout Model.Permute.
+From FastorV Require Import Base.Scalar Base.Mem Model.Cfg Model.Matmul Model.TMatmul Model.Expr Model.ExprInt Model.Reduce Base.Shape Model.Views Model.RandomViews Model.Layout Model.Permute Model.Einsum.
 Import ListNotations.
 
 Definition run_matmul_Z (c : cfg) (t : ety) (M K N : nat) (a b : list Z) : list Z :=
@@ -71,3 +71,9 @@ Definition run_permute (cxx17 : bool) (p dims : list nat) : list nat * list nat 
 Definition run_transpose (V M N : nat) : list Z :=
   map (transpose_tiled (S:=ZS) V M N (fun q => Z.of_nat q) (fun _ => 77777%Z)) (seq 0 (M * N + 2)).
 Definition run_invp := invp.
+
+(** C03 / C15 *)
+Definition run_einsum (I J dimsA dimsB : list nat) (A B : list Z) : list nat * list Z :=
+  let od := out_dims I J dimsA dimsB in
+  (od, map (einsum_general (S:=ZS) I J dimsA dimsB (fun p => nth p A 0%Z) (fun p => nth p B 0%Z)) (seq 0 (prod od))).
+Definition run_classify (I J : list nat) : list bool := [is_mat_vec I J; is_vec_mat I J; is_mat_mat I J].
